@@ -4,3 +4,5 @@ set -e
 cd "$(dirname "$0")"
 /venv/bin/python -c "import greenlet, experimaestro, click, watchdog, fasteners; print('setup ok: greenlet', greenlet.__version__)"
 mkdir -p evidence replays
+# environment-model conformance (POSIX locks, inotify, TaskRunner behaviour table, end-to-end trace): reported, never fatal here
+./check conformance 2>/dev/null || echo "conformance: DRIFT reported above (run ./check conformance)"
